@@ -90,3 +90,32 @@ Proof.
     { destruct Hh as [Hh|[c [Hc Hh]]]; [exact Hh|]. rewrite (Hfull c Hc) in Hh. cbn in Hh. lia. }
     lia.
 Qed.
+
+(* ---- bounded conditions, no condition covering an axis' whole range ----------------------------- *)
+Definition boundedb (U : Z) (rules : list rule) : bool :=
+  forallb (fun c : box => forallb (fun e => (fst (snd e) <=? U)%Z && (- U <=? snd (snd e))%Z) c) (all_boxes rules).
+
+Lemma boundedb_ok U rules : boundedb U rules = true ->
+  forall c a r, In c (all_boxes rules) -> In (a, r) c -> (fst r <= U /\ - U <= snd r)%Z.
+Proof.
+  unfold boundedb. intros H c a r Hc Hin. rewrite forallb_forall in H. specialize (H c Hc).
+  rewrite forallb_forall in H. specialize (H _ Hin). cbn [fst snd] in H.
+  apply andb_true_iff in H as [A B]. split; apply Z.leb_le; assumption.
+Qed.
+
+Definition no_coverb (U : Z) (env : axes_env) (rules : list rule) : bool :=
+  forallb (fun c : box => forallb (fun e => forallb (fun ea : axis * axis_info =>
+      negb (fst ea =? fst e)%N || range_eqb (snd e) (full_range U) ||
+      negb ((fst (snd e) <=? ax_minq (snd ea))%Z && (ax_maxq (snd ea) <=? snd (snd e))%Z)) env) c) (all_boxes rules).
+
+Lemma no_coverb_ok U env rules : no_coverb U env rules = true ->
+  forall c a r0 ai, In c (all_boxes rules) -> In (a, r0) c -> In (a, ai) env ->
+    r0 <> full_range U -> ~ (fst r0 <= ax_minq ai /\ ax_maxq ai <= snd r0)%Z.
+Proof.
+  unfold no_coverb. intros H c a r0 ai Hc Hin Hai Hnf [H1 H2]. rewrite forallb_forall in H. specialize (H c Hc).
+  rewrite forallb_forall in H. specialize (H _ Hin). rewrite forallb_forall in H. specialize (H _ Hai).
+  cbn [fst snd] in H. rewrite N.eqb_refl in H. cbn [negb orb] in H.
+  apply orb_true_iff in H as [H|H].
+  - apply range_eqb_eq in H. contradiction.
+  - apply negb_true_iff in H. apply andb_false_iff in H as [H|H]; apply Z.leb_gt in H; lia.
+Qed.
